@@ -132,15 +132,7 @@ Definition region_lines (t : list seg) : list (list seg) := removelast (tpl_line
 Definition render_lines (env : list (string * string)) (t : list seg) : list string :=
   map (render env) (region_lines t).
 
-(** *** region: the within-word matcher [_<cmd>_subword] *)
 Definition seg_nl : list seg := [Text nl].
-
-Definition R_sub (nc ns : bool) : list seg :=
-  write_subword_fn_0 ++ seg_nl
-  ++ (if nc then write_subword_fn_1 else []) ++ (if ns then write_subword_fn_2 else [])
-  ++ write_subword_fn_3 ++ write_subword_fn_4 ++ write_subword_fn_5
-  ++ (if nc then write_subword_fn_6 ++ seg_nl else [])
-  ++ write_subword_fn_7 ++ write_subword_fn_8 ++ seg_nl ++ seg_nl.
 
 Lemma render_app env a b : render env (a ++ b) = append (render env a) (render env b).
 Proof.
@@ -149,14 +141,6 @@ Qed.
 
 Definition env_cmd (command : string) : list (string * string) :=
   [("command", command); ("MATCH_FN_NAME", match_fn_name_bash)].
-
-Lemma write_subword_fn_region command nc ns :
-  write_subword_fn command nc ns = render (env_cmd command) (R_sub nc ns).
-Proof.
-  unfold write_subword_fn, R_sub, fmtln, fmt, env_cmd, seg_nl. cbn [sconcat].
-  destruct nc, ns; rewrite !render_app; cbn [render]; rewrite ?QuoteRT.append_nil_r, ?append_assoc; reflexivity.
-Qed.
-
 
 (** *** the generic decomposition of a rendered template into its lines *)
 Definition jnl (l : list string) : string := join nl l.
@@ -237,10 +221,6 @@ Proof.
   rewrite (app_removelast_last [Text "x"] Hne) at 1. rewrite Hl, map_app. cbn [map render].
   rewrite join_app_ne. cbn [join]. rewrite QuoteRT.append_nil_r. reflexivity.
 Qed.
-
-Lemma R_sub_lines command nc ns :
-  render (env_cmd command) (R_sub nc ns) = unlines (render_lines (env_cmd command) (R_sub nc ns)).
-Proof. apply render_region. destruct nc, ns; vm_compute; reflexivity. Qed.
 
 (** ** discharging the lines of a region *)
 Definition seg_no_nl (env : list (string * string)) (l : list seg) : bool :=
@@ -333,7 +313,7 @@ Proof.
   - apply is_cmd_fn_suffix. exact Hs.
 Qed.
 
-(** ** region by region *)
+(** ** units: maximal pieces of the skeleton that begin and end at line boundaries *)
 Ltac deep_line Hnl :=
   apply deep_render_sem;
   [ reflexivity
@@ -342,27 +322,63 @@ Ltac deep_line Hnl :=
 Ltac region_list R :=
   let L := eval vm_compute in (region_lines R) in change (region_lines R) with L.
 
-Definition sub_fn_stmts (command : string) : list stmt :=
-  [ SFunc (append "_" (append command "_subword"));
-    SScalar "subword_state" 0; SScalar "char_index" 0; SScalar "matched" 0;
-    SLits "subword_candidates" []; SLits "subword_matches" []; SEnd ].
+(** a unit is scanned: its lines are closed or deep, apart from the ones given first *)
+Definition unit_scans (command : string) (u : list seg) (sts : list stmt) : Prop :=
+  forall k rest,
+    scan (List.length (region_lines u) + k) Bash command (append (render (env_cmd command) u) rest)
+    = sts ++ scan k Bash command rest.
 
-Lemma R_sub_scan command nc ns k rest :
-  name_ok command ->
-  scan (List.length (region_lines (R_sub nc ns)) + k) Bash command (append (write_subword_fn command nc ns) rest)
-  = sub_fn_stmts command ++ scan k Bash command rest.
+Ltac unit_tac cmd Hc Hnl first_lines :=
+  intros k rest;
+  rewrite render_region by (vm_compute; reflexivity);
+  match goal with |- context [region_lines ?R] =>
+    replace (List.length (region_lines R)) with (List.length (render_lines (env_cmd cmd) R)) by apply map_length
+  end;
+  erewrite scan_lines_sem;
+  [ | unfold render_lines;
+      match goal with |- context [region_lines ?R] => region_list R end;
+      cbn [map];
+      first_lines;
+      repeat (eapply Forall2_cons; [first [closed_line | deep_line Hnl]|]);
+      apply Forall2_nil ];
+  match goal with |- _ = _ ++ ?T => generalize T; intro end;
+  vm_compute; reflexivity.
+
+Section Units.
+Variable command : string.
+Hypothesis Hc : name_ok command.
+Let Hnl := name_ok_no_nl _ Hc.
+
+(** the template without its leading newline *)
+Definition drop_nl (t : list seg) : list seg :=
+  match t with
+  | Text (String c s) :: r => if Ascii.eqb c nl_char then txt s ++ r else t
+  | _ => t
+  end.
+
+Definition U_sub0 := write_subword_fn_0 ++ seg_nl.
+Definition U_sub6 := write_subword_fn_6 ++ seg_nl.
+Definition U_sub78 := write_subword_fn_7 ++ write_subword_fn_8 ++ seg_nl ++ seg_nl.
+
+Lemma U_sub0_scans :
+  unit_scans command U_sub0
+    [SFunc (append "_" (append command "_subword")); SScalar "subword_state" 0; SScalar "char_index" 0; SScalar "matched" 0].
 Proof.
-  intros Hc. pose proof (name_ok_no_nl _ Hc) as Hnl.
-  rewrite write_subword_fn_region, R_sub_lines.
-  replace (List.length (region_lines (R_sub nc ns)))
-    with (List.length (render_lines (env_cmd command) (R_sub nc ns))) by apply map_length.
-  destruct nc, ns.
-  all: erewrite scan_lines_sem;
-    [ | unfold render_lines;
-        match goal with |- context [region_lines ?R] => region_list R end;
-        cbn [map];
-        eapply Forall2_cons; [apply (header_sem command "_subword" Hc); reflexivity|];
-        repeat (eapply Forall2_cons; [first [closed_line | deep_line Hnl]|]);
-        apply Forall2_nil ].
-  all: vm_compute; reflexivity.
+  unit_tac command Hc Hnl ltac:(eapply Forall2_cons; [apply (header_sem command "_subword" Hc); reflexivity|]).
 Qed.
+
+Lemma U_sub1_scans : unit_scans command write_subword_fn_1 [].
+Proof. unit_tac command Hc Hnl idtac. Qed.
+Lemma U_sub2_scans : unit_scans command write_subword_fn_2 [].
+Proof. unit_tac command Hc Hnl idtac. Qed.
+Lemma U_sub3_scans : unit_scans command write_subword_fn_3 [].
+Proof. unit_tac command Hc Hnl idtac. Qed.
+Lemma U_sub4_scans : unit_scans command write_subword_fn_4 [].
+Proof. unit_tac command Hc Hnl idtac. Qed.
+Lemma U_sub5_scans : unit_scans command write_subword_fn_5 [SLits "subword_candidates" []; SLits "subword_matches" []].
+Proof. unit_tac command Hc Hnl idtac. Qed.
+Lemma U_sub6_scans : unit_scans command U_sub6 [].
+Proof. unit_tac command Hc Hnl idtac. Qed.
+Lemma U_sub78_scans : unit_scans command U_sub78 [SEnd].
+Proof. unit_tac command Hc Hnl idtac. Qed.
+End Units.
